@@ -112,6 +112,15 @@ Proof.
   intros k. rewrite !changes_get. apply H.
 Qed.
 
+(* ... and conversely the change set pins down the final content: two write sequences commit to the same patch exactly when every
+   key ends with the same value (written, deleted or untouched) *)
+Theorem patch_canonical_iff ops1 ops2 :
+  changes ops1 = changes ops2 <-> (forall k, last_write ops1 k = last_write ops2 k).
+Proof.
+  split; [|apply patch_canonical].
+  intros H k. rewrite <- !changes_get, H. reflexivity.
+Qed.
+
 (* ------------------------------------------------------------------ (2) replay *)
 Lemma skipn_skipn' {A} : forall y x (l : list A), skipn x (skipn y l) = skipn (x + y) l.
 Proof.
